@@ -432,7 +432,7 @@ func TestC11(t *testing.T) {
 	c11T = gpNewTally(r)
 	defer c11T.Flush()
 	r.Rule("a case = one generated valid point: measurement/tag keys/tag values/field keys of 1–4 atoms over plain+unicode atoms and the special characters space , = \" \\ (half of the names hostile), 0–5 tags (rarely 90–130), 1–6 fields of all five types incl. extremes (±MaxFloat64, subnormals, −0, Min/MaxInt64, MaxUint64, strings with quotes/backslashes/newlines), timestamp incl. Min/MaxNanoTime at precision ns/us/ms/s or absent; rendered by NewPoint→String/AppendString/PrecisionString/MarshalBinary and by an independent renderer with shuffled tags/fields, parsed back and compared component-wise with the model; series key via MakeKey→ParseKeyBytes/ParseKey/ParseName/ParseTags; non-trivial = ≥1 tag or ≥2 fields or a hostile character; distinct = hash of the model point")
-	n := r.N(20000, 1500000)
+	n := r.N(60000, 1500000)
 	for i := 0; i < n; i++ {
 		c11One(r, i)
 	}
